@@ -521,7 +521,7 @@ def plan(tier, seed):
         out.append({"name": "directed", "module": m})
     for ci in range(len(SLOW_CONFIGS)):
         out.append({"name": "slow", "module": "c31_tri", "config": ci, "reps": 1 if tier == "quick" else 2,
-                    "ks": [2, 3, 4, 6] if tier == "quick" else [2, 3, 4, 5, 6]})
+                    "ks": [2, 3, 4, 6] if tier == "quick" else [2, 3, 4, 5, 6], "exclusive": True})
     parts = 2 if tier == "quick" else 6
     n = 26 if tier == "quick" else 70
     for m in MODS:
